@@ -129,7 +129,18 @@ func cmdCheck(args []string) {
 	start := time.Now()
 	setup(*repo)
 	pset := map[string]bool{*prop: true}
-	sel := func(o *Obl) bool { return hasProp(o, pset) }
+	baseline := loadBaseline(*prop)
+	known := loadKnownFindings()
+	sel := func(o *Obl) bool {
+		if !hasProp(o, pset) {
+			return false
+		}
+		if *tier == "quick" && baseline != nil && !*mkBaseline {
+			// quick tier: the committed baseline obligations and the known findings
+			return baseline[o.Name] || matchKnown(known, *prop, o.Name) != nil
+		}
+		return true
+	}
 	var results []*FuncResult
 	for _, fn := range scopeFuncs() {
 		r := verifyFunction(fn)
@@ -160,8 +171,36 @@ func cmdCheck(args []string) {
 		}(r)
 	}
 	wg.Wait()
-	baseline := loadBaseline(*prop)
-	known := loadKnownFindings()
+	// obligations left undecided by the race are retried alone with a long timeout before any verdict
+	var retry []*Obl
+	retryRes := map[*Obl]*FuncResult{}
+	for _, r := range results {
+		for _, o := range r.Obls {
+			if sel(o) && o.Status != "unsat" && o.Status != "trivial" && o.Status != "sat" && (baseline == nil || baseline[o.Name]) {
+				retry = append(retry, o)
+				retryRes[o] = r
+			}
+		}
+	}
+	if len(retry) > 0 && len(retry) <= 40 {
+		saved := solverTimeout
+		solverTimeout = 90
+		var wg2 sync.WaitGroup
+		rsem := make(chan struct{}, 3)
+		for _, o := range retry {
+			wg2.Add(1)
+			go func(o *Obl) {
+				defer wg2.Done()
+				rsem <- struct{}{}
+				defer func() { <-rsem }()
+				one := func(x *Obl) bool { return x == o }
+				o.Status = ""
+				discharge(retryRes[o], one, true)
+			}(o)
+		}
+		wg2.Wait()
+		solverTimeout = saved
+	}
 	var evs []evidenceObl
 	total, discharged, violations := 0, 0, 0
 	var fuc []string
@@ -199,7 +238,7 @@ func cmdCheck(args []string) {
 				attempted = append(attempted, o.Name+": discharged (not in baseline)")
 			case kf != nil && !kf.Fixed:
 				knownHit = append(knownHit, o.Name)
-				fmt.Printf("KNOWN-FINDING: property=%s %s\n", *prop, strings.TrimPrefix(kf.Text, "finding: "))
+				fmt.Printf("KNOWN-FINDING: %s\n", strings.TrimPrefix(kf.Text, "finding: "))
 			case inBase && baseline != nil:
 				total++
 				violations++
